@@ -56,39 +56,65 @@ def check(ctx):
 
 # ------------------------------------------------------------------ R1
 
+def _len_of_acc(v):
+    """len(<accumulated list>) -> its name, else None"""
+    if v[0] == "call" and v[1] == ("global", "len") and len(v[2]) == 1 and not v[3] and v[2][0][0] == "acc":
+        return v[2][0][1]
+    return None
+
+
 def csr_roles(m):
+    """(counter, roles, measured): the CSR lists by what is appended to them.  The running number of stored entries is either a
+    counter local (incremented next to the appends; `counter` is its name) or the length of one of the lists being filled
+    (`measured` is that list's name, counter is None)."""
     fl = m.flow
     counter = None
+    measured = None
     appended_names = set()
     for f in fl.facts:
         if f.kind == "append":
             v = simp(f.value)
-            for x in __import__("sa.valueflow", fromlist=["walk"]).walk(v):
+            for x in walk_(v):
                 if isinstance(x, tuple) and x and x[0] == "carried":
                     appended_names.add(x[1])
     for f in fl.facts:
         if f.kind == "augassign" and f.op == "Add" and f.loops and f.target in appended_names:
             counter = f.target
     roles = {}
-    for f in fl.facts:
-        if f.kind != "append":
-            continue
-        v = simp(f.value)
-        if contains_carried(v, counter):
-            roles.setdefault("rows", []).append(f)
-    rows_names = {f.target for f in roles.get("rows", [])}
     inc_loops = None
+    if counter is not None:
+        for f in fl.facts:
+            if f.kind == "append" and contains_carried(simp(f.value), counter):
+                roles.setdefault("rows", []).append(f)
+        for f in fl.facts:
+            if f.kind == "augassign" and f.target == counter:
+                inc_loops = tuple(l.id for l in f.loops)
+    else:
+        # no counter: the row pointers are `len(<list>)` of a list that is appended to inside the loops
+        lens = {}
+        for f in fl.facts:
+            if f.kind == "append":
+                nm = _len_of_acc(simp(f.value))
+                if nm is not None and nm != f.target:
+                    lens.setdefault(nm, []).append(f)
+        cands = [nm for nm in lens if any(g.kind == "append" and g.target == nm and g.loops for g in fl.facts)]
+        if len(cands) == 1:
+            measured = cands[0]
+            roles["rows"] = lens[measured]
+            sites = {tuple(l.id for l in g.loops) for g in fl.facts if g.kind == "append" and g.target == measured}
+            if len(sites) == 1:
+                inc_loops = next(iter(sites))
+    rows_names = {f.target for f in roles.get("rows", [])}
+
+    def is_position(v):
+        if v[0] == "elem" and v[1][0] == "sub" and v[1][1] == m.JAC and v[1][2][0] == "slice":
+            return False        # an element of a slice of the Jacobian table is an entry, not a position
+        return v[0] in ("elem", "item", "idx") or (v[0] == "call" and v[1] == ("global", "int"))
     for f in fl.facts:
-        if f.kind == "augassign" and f.target == counter:
-            inc_loops = tuple(l.id for l in f.loops)
-    for f in fl.facts:
-        if f.kind == "append" and f.target not in rows_names and f.loops and tuple(l.id for l in f.loops) == inc_loops:
+        if f.kind == "append" and f.target not in rows_names and f.loops and inc_loops is not None and tuple(l.id for l in f.loops) == inc_loops:
             v = simp(f.value)
-            if v[0] in ("elem", "item") or (v[0] == "call" and v[1] == ("global", "int")):
-                roles.setdefault("cols", []).append(f)
-            else:
-                roles.setdefault("vals", []).append(f)
-    return counter, roles
+            roles.setdefault("cols" if is_position(v) else "vals", []).append(f)
+    return counter, roles, measured
 
 
 def contains_carried(v, name):
@@ -99,8 +125,8 @@ def contains_carried(v, name):
 def _r1(ctx, m):
     fl = m.flow
     W = (FILE, m.func.lineno)
-    counter, roles = csr_roles(m)
-    if counter is None or not all(k in roles for k in ("rows", "cols", "vals")):
+    counter, roles, measured = csr_roles(m)
+    if (counter is None and measured is None) or not all(k in roles for k in ("rows", "cols", "vals")):
         # Not the scan `for row: for col: if entry != sentinel`.  One other construction is decidable: the stored positions are
         # taken from a SET filled during assembly.  Then the pattern is right only if every store into the Jacobian table has a
         # sibling `<set>.add(<same index>)` in the same loops, under the same guards.
@@ -130,20 +156,39 @@ def _r1(ctx, m):
         return
     rows, cols, vals = roles["rows"], roles["cols"], roles["vals"]
     names = {k: sorted({f.target for f in v}) for k, v in roles.items()}
-    # (a) counter starts at 0, assigned once outside loops
-    ini = fl.assigns.get(counter, [])
-    ctx.check(len(ini) == 1 and ini[0][0] == ("const", 0) and not ini[0][1] and not ini[0][2], "R1", "nnz-init", (FILE, ini[0][3] if ini else m.func.lineno),
-              f"`{counter}` is initialised once to 0 before the loops", expected=f"{counter} = 0", found="; ".join(show(x[0]) for x in ini))
-    incs = [f for f in fl.facts if f.kind == "augassign" and f.target == counter]
-    ctx.check(len(incs) == 1 and incs[0].op == "Add" and incs[0].value == ("const", 1), "R1", "nnz-increment", (FILE, incs[0].line if incs else m.func.lineno),
-              f"`{counter}` is only ever incremented by 1, at one site", found="; ".join(f"{f.op} {show(f.value)} @{f.line}" for f in incs))
+    # (a) the running count of stored entries: a counter that starts at 0 and is incremented by 1 next to the appends, or the length
+    #     of the value / column list itself
+    incs = [f for f in fl.facts if f.kind == "augassign" and f.target == counter] if counter is not None else []
+    if counter is not None:
+        ini = fl.assigns.get(counter, [])
+        ctx.check(len(ini) == 1 and ini[0][0] == ("const", 0) and not ini[0][1] and not ini[0][2], "R1", "nnz-init", (FILE, ini[0][3] if ini else m.func.lineno),
+                  f"`{counter}` is initialised once to 0 before the loops", expected=f"{counter} = 0", found="; ".join(show(x[0]) for x in ini))
+        ctx.check(len(incs) == 1 and incs[0].op == "Add" and incs[0].value == ("const", 1), "R1", "nnz-increment", (FILE, incs[0].line if incs else m.func.lineno),
+                  f"`{counter}` is only ever incremented by 1, at one site", found="; ".join(f"{f.op} {show(f.value)} @{f.line}" for f in incs))
+    else:
+        own = measured in names.get("vals", []) + names.get("cols", [])
+        ctx.check(own, "R1", "nnz-by-length", W, f"the number of stored entries is read as len({measured}), the list that receives one element per stored entry",
+                  found=f"len({measured}); value list {names.get('vals')}, column list {names.get('cols')}")
     inc = incs[0] if incs else None
     # (b) loops
-    if inc is None or len(cols) != 1 or len(vals) != 1:
+    if (counter is not None and inc is None) or len(cols) != 1 or len(vals) != 1:
         ctx.bad("R1", "csr-sites", W, f"expected one cols.append, one vals.append and one increment; found {len(cols)}, {len(vals)}, {len(incs)}")
         return
-    two_range = len(inc.loops) == 2 and all(l.iter[0] == "call" and l.iter[1] == ("global", "range") for l in inc.loops)
-    if not two_range:
+    c, v = cols[0], vals[0]
+    together = [c, v] + ([inc] if inc is not None else [])
+    scan = v.loops
+    # the scan: `for row in range(n): for col in range(n): entry = table[row*n + col]`  or
+    #           `for row in range(n): for col, entry in enumerate(table[row*n : (row+1)*n])`
+    form = None
+    if len(scan) == 2:
+        it0, it1 = simp(scan[0].iter), simp(scan[1].iter)
+        if it0[0] == "call" and it0[1] == ("global", "range"):
+            if it1[0] == "call" and it1[1] == ("global", "range"):
+                form = "range"
+            elif it1[0] == "call" and it1[1] == ("global", "enumerate") and len(it1[2]) == 1 and not it1[3] and it1[2][0][0] == "sub" \
+                    and it1[2][0][1] == m.JAC and it1[2][0][2][0] == "slice":
+                form = "rowslice"
+    if form is None:
         # restructured builder: the one obligation that is independent of the loop shape --
         # a row pointer must be emitted for every row, whatever the row contains
         hit = False
@@ -170,12 +215,28 @@ def _r1(ctx, m):
         if not hit:
             ctx.unrec("R1", "csr-construction", W, "CSR builder is not the row loop x column loop form; cannot decide well-formedness")
         return
-    rowloop, colloop = inc.loops
-    for nm, lp in (("row", rowloop), ("col", colloop)):
-        it = simp(lp.iter)
-        ok = it[0] == "call" and it[1] == ("global", "range") and len(it[2]) == 1 and not it[3] and m.is_n_eqns(it[2][0])
-        ctx.check(ok, "R1", f"{nm}-loop", (FILE, lp.line), f"{nm} loop is `for {lp.target} in range(n_eqns)` (ascending, complete)",
+    rowloop, colloop = scan
+    rowvar = ("elem", simp(rowloop.iter), rowloop.id)
+    it = simp(rowloop.iter)
+    ok = len(it[2]) == 1 and not it[3] and m.is_n_eqns(it[2][0])
+    ctx.check(ok, "R1", "row-loop", (FILE, rowloop.line), f"row loop is `for {rowloop.target} in range(n_eqns)` (ascending, complete)",
+              expected="range(n_eqns)", found=show(it)[:100])
+    it = simp(colloop.iter)
+    if form == "range":
+        ok = len(it[2]) == 1 and not it[3] and m.is_n_eqns(it[2][0])
+        ctx.check(ok, "R1", "col-loop", (FILE, colloop.line), f"col loop is `for {colloop.target} in range(n_eqns)` (ascending, complete)",
                   expected="range(n_eqns)", found=show(it)[:100])
+        colvar = ("elem", it, colloop.id)
+        entry = None            # from the guard, below
+    else:
+        from ..odemodel import row_slice
+        seq = it[2][0]
+        ok = row_slice(m, seq[2], rowvar)
+        ctx.check(bool(ok), "R1", "col-loop", (FILE, colloop.line),
+                  f"col loop enumerates the row's slice jacrhs[row*n_eqns : (row+1)*n_eqns] (ascending, complete; position in the slice = column)",
+                  expected="enumerate(jacrhs[row*n_eqns : (row+1)*n_eqns])", found=show(it)[:120])
+        colvar = ("idx", seq, colloop.id)
+        entry = ("elem", seq, colloop.id)
     # (c) row pointer appended before the column loop, unguarded, once per row
     inrow = [f for f in rows if tuple(l.id for l in f.loops) == (rowloop.id,)]
     tail = [f for f in rows if not f.loops]
@@ -189,37 +250,46 @@ def _r1(ctx, m):
               found=f"{len(inrow)} in-row appends" + (f" (guards: {[show(g) for g, _ in inrow[0].guards]}, after column loop: {inrow[0].seq > first_col_fact})" if inrow else "")
               + (f", {len(others)} appends elsewhere (lines {[f.line for f in others]})" if others else ""))
     ok = len(tail) == 1 and not tail[0].guards and tail[0].seq > last_loop_fact
+    if ok and counter is None:
+        # len(<list>) is the final count only if it is evaluated after the loops
+        ok = _evaluated_after(fl, simp(tail[0].value), tail[0].seq, last_loop_fact)
     ctx.check(ok, "R1", "rowptr-final", (FILE, tail[0].line if tail else rowloop.line),
               "one final rows.append(nnz) after the loops (row pointers end at the non-zero count)",
               found=f"{len(tail)} appends after the loops")
     # (d) single guard entry != sentinel shared by cols / vals / increment
-    c, v = cols[0], vals[0]
-    same_loops = all(tuple(l.id for l in f.loops) == (rowloop.id, colloop.id) for f in (c, v, inc))
-    g = [tuple((simp(x), p) for x, p in f.guards) for f in (c, v, inc)]
+    same_loops = all(tuple(l.id for l in f.loops) == (rowloop.id, colloop.id) for f in together)
+    g = [tuple((simp(x), p) for x, p in f.guards) for f in together]
     slot_idx = None
     guard_ok = False
-    if g[0] == g[1] == g[2] and len(g[0]) == 1:
+    if all(x == g[0] for x in g) and len(g[0]) == 1:
         gx, pol = g[0][0]
-        b = match(("cmp", (V("op"),), (("sub", m.JAC, V("i")), V("lit"))), gx)
+        b = match(("cmp", (V("op"),), (V("e"), V("lit"))), gx)
         if b and ((b["op"] == "NotEq" and pol) or (b["op"] == "Eq" and not pol)) and b["lit"][0] == "const":
-            slot_idx = b["i"]
-            ctx.stats["csr_sentinel"] = b["lit"][1]
-            guard_ok = True
+            if form == "range" and b["e"][0] == "sub" and b["e"][1] == m.JAC:
+                slot_idx = b["e"][2]
+                entry = b["e"]
+                guard_ok = True
+            elif form == "rowslice" and b["e"] == entry:
+                guard_ok = True
+            if guard_ok:
+                ctx.stats["csr_sentinel"] = b["lit"][1]
     ctx.check(same_loops and guard_ok, "R1", "single-guard", (FILE, c.line),
               "cols.append, vals.append and the increment sit together under the single guard `entry != sentinel`",
               expected="if elem != '0.0': cols.append(col); vals.append(elem); nnz += 1",
               found="; ".join("&".join(("" if p else "not ") + show(x)[:60] for x, p in gg) or "<unguarded>" for gg in g))
-    if slot_idx is not None:
-        d = m.decode_flat(slot_idx)
-        ok = bool(d) and d[0] == ("elem", simp(rowloop.iter), rowloop.id) and d[1] == ("elem", simp(colloop.iter), colloop.id)
-        ctx.check(ok, "R1", "entry-index", (FILE, c.line), "the tested entry is jacrhs[row*n_eqns + col] of the two loop variables",
-                  found=show(slot_idx)[:120])
-        ctx.check(simp(c.value) == ("elem", simp(colloop.iter), colloop.id), "R1", "cols-value", (FILE, c.line),
+    if guard_ok:
+        if form == "range":
+            d = m.decode_flat(slot_idx)
+            ok = bool(d) and d[0] == rowvar and d[1] == colvar
+            ctx.check(ok, "R1", "entry-index", (FILE, c.line), "the tested entry is jacrhs[row*n_eqns + col] of the two loop variables",
+                      found=show(slot_idx)[:120])
+        else:
+            ctx.ok("R1", "entry-index", (FILE, c.line), "the tested entry is the element the column loop enumerates: jacrhs[row*n_eqns + col]")
+        ctx.check(simp(c.value) == colvar, "R1", "cols-value", (FILE, c.line),
                   "the column list receives the column loop variable", found=show(simp(c.value))[:80])
         lw = lower(v.value)
         hv = list(lw.holes.values())
-        slot = ("sub", m.JAC, slot_idx)
-        ok = len(hv) == 1 and hv[0] in (slot, ("fmt", slot, None, -1)) and lw.text.strip() == next(iter(lw.holes))
+        ok = len(hv) == 1 and hv[0] in (entry, ("fmt", entry, None, -1)) and lw.text.strip() == next(iter(lw.holes))
         ctx.check(ok, "R1", "vals-value", (FILE, v.line), "the value list receives that same entry, unchanged", found=lw.text)
     # (f) nothing else touches the lists
     allnames = set(sum(names.values(), []))
@@ -230,6 +300,15 @@ def _r1(ctx, m):
         ini = [f for f in fl.facts if f.kind == "init" and f.target == nm]
         ctx.check(len(ini) == 1 and ini[0].value == ("list", ()) and not ini[0].loops, "R1", f"init:{nm}", (FILE, ini[0].line if ini else m.func.lineno),
                   f"`{nm}` starts as the empty list, once", found="; ".join(show(f.value) for f in ini))
+
+
+def _evaluated_after(fl, v, use_seq, after_seq):
+    """`v` (a len(<list>) expression, read by the fact numbered use_seq) was evaluated after the fact numbered after_seq: either it
+    is written at the point of use, or it was bound to a local by an assignment that itself comes after."""
+    binds = [seq for nm, lst in fl.assigns.items() for val, loops, guards, line, seq in lst if simp(val) == v]
+    if not binds:
+        return use_seq > after_seq
+    return all(sq > after_seq for sq in binds) and use_seq > after_seq
 
 
 # ------------------------------------------------------------------ R2 + R5
@@ -268,85 +347,7 @@ def _r2_r5(ctx, m):
     fn = pkg.method("TemplateLoader", "render")
     ctx.saw(FILE, "TemplateLoader.render")
     rf = Flow(fn, FILE)
-    pat = None
-    for name, lst in rf.assigns.items():
-        for v, loops, guards, line, seq in lst:
-            v = simp(v)
-            if v[0] == "comp" and v[2][0] == "ifexp" and guards and any("jac_pattern" in show(g) for g, _ in guards):
-                pat = (v, line, guards)
-    if pat is None:
-        ctx.missing("R5", "pattern-writer", (FILE, fn.lineno), "jac_pattern branch of TemplateLoader.render not found")
-    else:
-        v, line, guards = pat
-        tg, it, ifs = v[3][0]
-        e = v[2]
-        src_ok = simp(it) == ("attr", ("attr", ("global", "ode") if False else rf.env.get("ode", ("global", "ode")), "jac"), "rhs") or show(simp(it)).endswith(".jac.rhs")
-        c = e[1]
-        lit = None
-        form_ok = False
-        if c[0] == "cmp" and len(c[1]) == 1 and c[2][0] == tg and c[2][1][0] == "const":
-            lit = c[2][1][1]
-            if c[1][0] == "Eq":
-                form_ok = e[2] == ("const", 0) and e[3] == ("const", 1)
-            elif c[1][0] == "NotEq":
-                form_ok = e[2] == ("const", 1) and e[3] == ("const", 0)
-        sent[("pattern writer", FILE, line)] = lit
-        ctx.check(src_ok and form_ok and not ifs, "R5", "pattern-marks", (FILE, line),
-                  "pattern = [0 if entry == sentinel else 1 for entry in ode.jac.rhs] -- marks exactly the stored entries",
-                  found=show(v)[:140])
-        # rows
-        # locals by role: the text written to jac_pattern.dat is "\n".join(<rows>); a row is " ".join(str(e) for e in <row data>)
-        rows_name = None
-        for f in rf.facts:
-            if f.kind == "call" and f.target == "write" and f.value and "jac_pattern.dat" in show(f.value[1]):
-                a = simp(f.value[3][0]) if f.value[3] else None
-                if a and a[0] == "join" and a[2][0] == "acc":
-                    rows_name = a[2][1]
-        rd = []
-        rows_val = None
-        for f in rf.facts:
-            if f.kind == "call" and f.target == "write" and f.value and "jac_pattern.dat" in show(f.value[1]):
-                a = simp(f.value[3][0]) if f.value[3] else None
-                if a and a[0] == "join" and a[2][0] == "comp":
-                    rows_val = a[2]
-        if rows_val is not None and len(rows_val[3]) == 1 and simp(rows_val[2])[0] == "join":
-            # the rows as one comprehension: [" ".join(str(e) for e in pattern[r*n:(r+1)*n]) for r in range(n)]
-            e_ = simp(rows_val[2])
-            if e_[2][0] == "comp" and len(e_[2][3]) == 1:
-                tg_, it_, ifs_ = rows_val[3][0]
-
-                class _L:       # duck-typed loop record
-                    pass
-                lp_ = _L()
-                lp_.iter, lp_.id = it_, None
-                rd.append((subst_(e_[2][3][0][1], {tg_: ("elem", simp(it_), None)}), [lp_], (), getattr(fn, "lineno", 0), None))
-        for f in rf.facts:
-            if f.kind == "append" and f.target == rows_name:
-                a = simp(f.value)
-                if a[0] == "join" and a[2][0] == "comp" and len(a[2][3]) == 1:
-                    rd.append((a[2][3][0][1], f.loops, f.guards, f.line, None))
-        role_names = {rows_name} | {nm for nm, lst in rf.assigns.items() for val, *_ in lst if simp(val) == v or (rd and simp(val) == simp(rd[-1][0]))}
-        ok = False
-        found = ""
-        if rd:
-            val, loops, g2, l2, _ = rd[-1]
-            val = simp(val)
-            found = show(val)[:140]
-            b = match(("sub", V("p"), ("slice", ("binop", "Mult", V("r"), V("n")), ("binop", "Mult", ("binop", "Add", V("r"), ("const", 1)), V("n")), ("const", None))), val)
-            if b and len(loops) == 1:
-                lp = loops[0]
-                itr = simp(lp.iter)
-                nrow = show(b["n"]).endswith(".jac.nrow")
-                ok = nrow and b["r"] == ("elem", itr, lp.id) and itr == ("call", ("global", "range"), (b["n"],), ()) and b["p"] == v
-        ctx.check(ok, "R5", "pattern-rows", (FILE, rd[-1][3] if rd else line),
-                  "row r of the file is pattern[r*nrow:(r+1)*nrow] for r in range(nrow), nrow = ode.jac.nrow", found=found)
-    # nothing edits the pattern after it was derived from the entries
-    if pat is not None:
-        muts = [f for f in rf.facts if f.target in role_names and f.kind in ("store", "augstore", "mutate", "remove")]
-        ctx.check(not muts, "R5", "pattern-unedited", (FILE, muts[0].line if muts else pat[1]),
-                  "the pattern rows are written exactly as derived from the Jacobian entries" if not muts else
-                  f"the pattern is edited after it was derived from the entries (`{muts[0].kind}` on `{muts[0].target}` at line {muts[0].line}): jac_pattern.dat marks entries the generated "
-                  "Jacobian never stores (or hides stored ones)")
+    _pattern_writer(ctx, rf, fn, sent)
     # R2 verdict
     W = (FILE, m.func.lineno)
     ctx.floor("R2", "sentinel sites", len(sent), 6 if "csr_sentinel" not in ctx.stats else 7, W)
@@ -355,11 +356,135 @@ def _r2_r5(ctx, m):
         ctx.check(lit == "0.0", "R2", f"sentinel:{label}", (rel, line), f"{label} uses the sentinel '0.0'", expected="'0.0'", found=repr(lit))
 
 
+def _pattern_writer(ctx, rf, fn, sent):
+    """R5.  The text written to jac_pattern.dat, read as a value:
+         "\\n".join( ROW(r) for r in range(nrow) ),   ROW(r) = " ".join( MARK(e) for e in ode.jac.rhs[r*nrow : (r+1)*nrow] ),
+         MARK(e) = 0 if e == sentinel else 1   (as int through str(), or as the strings "0" / "1")
+    whichever way it is spelled: rows appended in a loop or built by a comprehension, the marks computed first for the whole table
+    and sliced afterwards or computed on the slice, row starts pre-computed, intermediate locals or none."""
+    from ..odemodel import poly
+    from ..valueflow import as_map
+    W = (FILE, fn.lineno)
+    writes = [f for f in rf.facts if f.kind == "call" and f.target == "write" and f.value and "jac_pattern.dat" in show(f.value[1]) and f.value[3]]
+    if len(writes) != 1 or not any("jac_pattern" in show(g) for g, _ in writes[0].guards):
+        ctx.missing("R5", "pattern-writer", W, "jac_pattern branch of TemplateLoader.render (one write to jac_pattern.dat under `if jac_pattern`) not found")
+        return
+    w = writes[0]
+    wg = [(simp(g), p) for g, p in w.guards]
+    text = simp(w.value[3][0])
+    if not (text[0] == "join" and text[1] == ("const", "\n")):
+        ctx.unrec("R5", "pattern-rows", (FILE, w.line), f"the text written to jac_pattern.dat is not a newline-join of rows: {show(text)[:100]}")
+        return
+    rows = text[2]
+    chain = set()           # locals the rows are accumulated in
+    if rows[0] == "acc":
+        chain.add(rows[1])
+        inits = [f for f in rf.facts if f.kind == "init" and f.target == rows[1]]
+        apps = [f for f in rf.facts if f.kind == "append" and f.target == rows[1]]
+        if len(inits) != 1 or simp(inits[0].value) != ("list", ()) or len(apps) != 1 or len(apps[0].loops) != 1 \
+                or [(simp(g), p) for g, p in apps[0].guards] != wg:
+            ctx.unrec("R5", "pattern-rows", (FILE, w.line), f"the rows are accumulated in `{rows[1]}` in a way that is not one unconditional append per iteration of one loop")
+            return
+        lp = apps[0].loops[0]
+        rdom = simp(lp.iter)
+        rvar = ("elem", rdom, lp.id)
+        rowv = simp(apps[0].value)
+        rline = apps[0].line
+    else:
+        mm = as_map(rows) if rows[0] == "comp" else None
+        if mm is None or mm[3]:
+            ctx.unrec("R5", "pattern-rows", (FILE, w.line), f"the rows are not one row per element of a sequence: {show(rows)[:100]}")
+            return
+        bv, body, rdom, _ = mm
+        rdom = simp(rdom)
+        rvar = ("elem", rdom, None)
+        rowv = simp(subst_(body, {bv: rvar}))
+        rline = w.line
+    # one row per r in range(nrow)
+    dom_ok = rdom[0] == "call" and rdom[1] == ("global", "range") and len(rdom[2]) == 1 and not rdom[3]
+    if not dom_ok:
+        ctx.unrec("R5", "pattern-rows", (FILE, rline), f"rows range over {show(rdom)[:80]}, not over range(<n>)")
+        return
+    n = rdom[2][0]
+    if not (rowv[0] == "join" and rowv[1] == ("const", " ")):
+        ctx.unrec("R5", "pattern-rows", (FILE, rline), f"a row is not a blank-join of marks: {show(rowv)[:100]}")
+        return
+    cm = as_map(rowv[2])
+    if cm is None or cm[3]:
+        ctx.unrec("R5", "pattern-rows", (FILE, rline), f"the marks of a row are not one per element of a sequence: {show(rowv[2])[:100]}")
+        return
+    cbv, cbody, cbase, _ = cm
+    cbase = simp(cbase)
+
+    def edited(name):
+        # the row / the marks were edited in place after they were derived from the entries
+        muts = [f for f in rf.facts if f.target == name and f.kind in ("store", "augstore", "mutate", "remove")]
+        if not muts:
+            return ctx.unrec("R5", "pattern-rows", (FILE, rline), f"`{name}` is filled piecemeal; the pattern is not reconstructible as a value")
+        ctx.bad("R5", "pattern-unedited", (FILE, muts[0].line if muts else rline),
+                f"the pattern is edited after it was derived from the entries (`{muts[0].kind if muts else 'edit'}` on `{name}`" + (f" at line {muts[0].line}" if muts else "")
+                + "): jac_pattern.dat marks entries the generated Jacobian never stores (or hides stored ones)")
+    if cbase[0] == "acc":
+        return edited(cbase[1])
+    if not (cbase[0] == "sub" and cbase[2][0] == "slice"):
+        ctx.unrec("R5", "pattern-rows", (FILE, rline), f"a row is not cut from a sequence by a slice: {show(cbase)[:100]}")
+        return
+    src, sl = cbase[1], cbase[2]
+    # marks computed for the whole table first and sliced afterwards: [f(x) for x in T][a:b] = [f(x) for x in T[a:b]]
+    if src[0] == "comp":
+        im = as_map(src)
+        if im is None or im[3]:
+            ctx.bad("R5", "pattern-marks", (FILE, rline), "the marks are computed from a FILTERED view of the Jacobian entries: positions in the pattern no longer "
+                    "correspond to positions in the table" if im is not None else f"mark list not understood: {show(src)[:100]}", found=show(src)[:140])
+            return
+        cbody = simp(subst_(cbody, {cbv: im[1]}))
+        cbv, src = im[0], simp(im[2])
+    if src[0] == "acc":
+        return edited(src[1])
+    src_ok = show(src).endswith(".jac.rhs")
+    # the mark of one entry
+    mark = cbody
+    if mark[0] == "call" and mark[1] == ("global", "str") and len(mark[2]) == 1 and not mark[3]:
+        mark = mark[2][0]
+    lit = None
+    form = None
+    if mark[0] == "ifexp" and mark[1][0] == "cmp" and len(mark[1][1]) == 1 and mark[1][1][0] in ("Eq", "NotEq") and mark[1][2][0] == cbv and mark[1][2][1][0] == "const" \
+            and mark[2][0] == "const" and mark[3][0] == "const":
+        lit = mark[1][2][1][1]
+        a_, b_ = (mark[2][1], mark[3][1]) if mark[1][1][0] == "Eq" else (mark[3][1], mark[2][1])       # (value for a sentinel entry, value otherwise)
+        if (a_, b_) in ((0, 1), ("0", "1")) and type(a_) is type(b_) and not isinstance(a_, bool):
+            form = True
+        elif (a_, b_) in ((1, 0), ("1", "0")):
+            form = False
+    sent[("pattern writer", FILE, rline)] = lit
+    if form is None or not src_ok:
+        ctx.unrec("R5", "pattern-marks", (FILE, rline), f"mark of an entry not understood: {show(cbody)[:100]} over {show(src)[:60]}")
+        return
+    ctx.check(form, "R5", "pattern-marks", (FILE, rline),
+              "mark = 0 if entry == sentinel else 1, for every entry of ode.jac.rhs -- marks exactly the stored entries",
+              expected="0 if entry == '0.0' else 1", found=show(cbody)[:140])
+    # the slice of row r
+    lo = poly(sl[1]) if sl[1] != ("const", None) else {}
+    hi = poly(sl[2]) if sl[2] != ("const", None) else None
+    want_lo = poly(("binop", "Mult", rvar, n))
+    want_hi = poly(("binop", "Add", ("binop", "Mult", rvar, n), n))
+    ok = sl[3] == ("const", None) and lo == want_lo and hi == want_hi and show(n).endswith(".jac.nrow")
+    ctx.check(ok, "R5", "pattern-rows", (FILE, rline),
+              "row r of the file is pattern[r*nrow:(r+1)*nrow] for r in range(nrow), nrow = ode.jac.nrow", found=show(cbase)[:140])
+    # nothing edits the pattern after it was derived from the entries: no in-place edit of a local of this branch
+    local = {nm for nm, lst in rf.assigns.items() for val, loops, guards, line, seq in lst if [(simp(g), p) for g, p in guards][:len(wg)] == wg and wg}
+    muts = [f for f in rf.facts if f.target in (local | chain) and f.kind in ("store", "augstore", "mutate", "remove") ]
+    ctx.check(not muts, "R5", "pattern-unedited", (FILE, muts[0].line if muts else rline),
+              "the pattern rows are written exactly as derived from the Jacobian entries" if not muts else
+              f"the pattern is edited after it was derived from the entries (`{muts[0].kind}` on `{muts[0].target}` at line {muts[0].line}): jac_pattern.dat marks entries the generated "
+              "Jacobian never stores (or hides stored ones)")
+
+
 # ------------------------------------------------------------------ R3
 
 def _loop_sites(ctx, label, rel, cfg, fname, field, lhs_pat):
     """In function `fname`: exactly one loop writes `lhs[ <index> ] = {{ entry }}`; it must iterate ode.jac.<field>."""
-    items = J.flatten(ctx.tree, rel, cfg)
+    items = J.propagate_sets(J.flatten(ctx.tree, rel, cfg))      # `{% set %}` variables read as the expressions they stand for
     sk = Skel(items)
     key = f"{label}:{fname}:ode.jac.{field}"
     hits = []
@@ -408,7 +533,7 @@ def _r3(ctx):
     _loop_sites(ctx, "cvode/sparse", JAC, sp, "Jac", "vals", r"data\s*\[\s*\x00(\d+)\x00\s*\]")
     _loop_sites(ctx, "cvode/cusparse", JAC, cu, "JacKernel", "vals", r"data\s*\[\s*jistart\s*\+\s*\x00(\d+)\x00\s*\]")
     # cusparse InitJac: initialiser lists are the whole rows / cols sequences
-    items = J.flatten(ctx.tree, JAC, cu)
+    items = J.propagate_sets(J.flatten(ctx.tree, JAC, cu))
     sk = Skel(items)
     outs = [it for it, off in sk.items_in("InitJac") if it[0] == "out"]
     got = {}
@@ -417,7 +542,10 @@ def _r3(ctx):
         p = J.path(base)
         names = [f[0] for f in fs]
         if p in ("ode.jac.rows", "ode.jac.cols"):
-            good = names[:2] == ["map", "join"] and all(n in ("map", "join", "stmwrap") for n in names)
+            # `join` applies str() to every element itself: a preceding map('string') is optional
+            if fs and fs[0][0] == "map" and fs[0][1] == (("const", "string"),) and not fs[0][2]:
+                names = names[1:]
+            good = names[:1] == ["join"] and all(n == "stmwrap" for n in names[1:])
             got[p] = (good, o)
     for p, arr in (("ode.jac.rows", "rowptrs"), ("ode.jac.cols", "colvals")):
         if p not in got:
@@ -480,7 +608,7 @@ def _r4(ctx):
     tree = ctx.tree
     # --- macro definitions
     ctx.saw(MACROS)
-    items = J.flatten(tree, MACROS, {})
+    items = J.propagate_sets(J.flatten(tree, MACROS, {}))        # a size first bound to a `{% set %}` variable is still that expression
     defs = {}
     prev = ""
     for it in items:
@@ -582,6 +710,8 @@ def _split_args(code, i):
 
 T = FILE
 MUTANTS = [
+    {"name": 'rowslice-one-column-short', "file": T, "old": '        nnz = 0\n\n        for row in range(n_eqns):\n            spjacrptr.append(nnz)\n            for col in range(n_eqns):\n                elem = jacrhs[row * n_eqns + col]\n                if elem != "0.0":\n                    spjaccval.append(col)\n                    spjacdata.append(f"{elem}")\n                    nnz += 1\n        spjacrptr.append(nnz)\n',
+     "new": '        for row in range(n_eqns):\n            spjacrptr.append(len(spjacdata))\n            for col, elem in enumerate(jacrhs[row * n_eqns : (row + 1) * n_eqns - 1]):\n                if elem == "0.0":\n                    continue\n                spjaccval.append(col)\n                spjacdata.append(elem)\n        nnz = len(spjacdata)\n        spjacrptr.append(nnz)\n', "rules": ['R1']},
     {"name": "cusparse-kernel-drops-system-offset", "file": "naunet/templates/cvode/src/naunet_jac.cpp.j2", "old": "data[jistart + ", "new": "data[", "rules": ["R6"]},
     {"name": "rowptr-after-columns", "file": T, "old": "            spjacrptr.append(nnz)\n            for col in range(n_eqns):\n                elem = jacrhs[row * n_eqns + col]\n                if elem != \"0.0\":\n                    spjaccval.append(col)\n                    spjacdata.append(f\"{elem}\")\n                    nnz += 1\n",
      "new": "            for col in range(n_eqns):\n                elem = jacrhs[row * n_eqns + col]\n                if elem != \"0.0\":\n                    spjaccval.append(col)\n                    spjacdata.append(f\"{elem}\")\n                    nnz += 1\n            spjacrptr.append(nnz)\n", "rules": ["R1"]},
@@ -604,6 +734,15 @@ MUTANTS = [
     {"name": "nequations-macro", "file": MACROS, "old": "#define NEQUATIONS (NSPECIES + THERMAL)", "new": "#define NEQUATIONS (NSPECIES)", "rules": ["R4"]},
 ]
 BENIGN = [
+    {"name": 'pattern-marks-on-the-slice', "file": T, "old": '            pattern = [0 if j == "0.0" else 1 for j in jacrhs]\n\n            rowpattern = []\n            for row in range(n_eqns):\n                rowdata = pattern[row * n_eqns : (row + 1) * n_eqns]\n                rowpattern.append(" ".join(str(e) for e in rowdata))\n',
+     "new": '            rowpattern = [\n                " ".join("0" if elem == "0.0" else "1" for elem in jacrhs[row * n_eqns : (row + 1) * n_eqns])\n                for row in range(n_eqns)\n            ]\n'},
+    {"name": 'pattern-string-flags-rowstarts', "file": T, "old": '            pattern = [0 if j == "0.0" else 1 for j in jacrhs]\n\n            rowpattern = []\n            for row in range(n_eqns):\n                rowdata = pattern[row * n_eqns : (row + 1) * n_eqns]\n                rowpattern.append(" ".join(str(e) for e in rowdata))\n',
+     "new": '            flags = ["1" if elem != "0.0" else "0" for elem in ode.jac.rhs]\n            rowstarts = [row * n_eqns for row in range(n_eqns)]\n            rowpattern = [" ".join(flags[start : start + n_eqns]) for start in rowstarts]\n'},
+    {"name": "csr-rowslice-enumerate-count-by-len", "file": T, "old": '        nnz = 0\n\n        for row in range(n_eqns):\n            spjacrptr.append(nnz)\n            for col in range(n_eqns):\n                elem = jacrhs[row * n_eqns + col]\n                if elem != "0.0":\n                    spjaccval.append(col)\n                    spjacdata.append(f"{elem}")\n                    nnz += 1\n        spjacrptr.append(nnz)\n',
+     "new": '        for row in range(n_eqns):\n            spjacrptr.append(len(spjacdata))\n            for col, elem in enumerate(jacrhs[row * n_eqns + 0 : (row + 1) * n_eqns]):\n                if elem == "0.0":\n                    continue\n                spjaccval.append(col)\n                spjacdata.append(elem)\n        nnz = len(spjacdata)\n        spjacrptr.append(nnz)\n'},
+    {"name": "initjac-join-without-map", "file": JAC, "old": " | map('string') | join(", "new": " | join(", "count": 2},
+    {"name": "kernel-replace-in-set-variable", "file": JAC, "old": "data[jistart + {{loop.index0}}] = {{ data | replace(\"y[IDX\", \"y_cur[IDX\") | stmwrap(80, 12) }};",
+     "new": "{% set cur = data | replace(\"y[IDX\", \"y_cur[IDX\") -%}data[jistart + {{loop.index0}}] = {{ cur | stmwrap(80, 12) }};"},
     {"name": "arrays-renamed", "edits": [
         {"file": T, "old": "jacrhs", "new": "jacent", "count": 13},
         {"file": T, "old": "rhs[", "new": "derivs[", "count": 9},
